@@ -13,6 +13,7 @@
 //! C <bufNo> <delta>              -> true | false
 //! S <cls>                        -> live=<n> free=<n> bump=<n>
 //! K <n>                          -> <cls> | none
+//! P <cls> <delta>                -> true | false    contains(class_base(cls) + delta)
 //! ```
 //! `run` also evaluates an implementation-level oracle that needs no model (shadow ownership map,
 //! byte patterns, conservation) and reports `ORACLE-FAIL <line-no> <what>` on stderr.
@@ -86,6 +87,56 @@ fn generate(args: &[String]) -> i32 {
                 }
             }
             out.line("s");
+        } else if h % 40 == 7 {
+            // exhaustion of one real class, fallback while exhausted, release and refill
+            let sizes = hooks::slot_sizes();
+            let counts = hooks::slot_counts();
+            let cls = 8 + rng.below(12) as usize; // classes with 1024 or 512 slots
+            let size = sizes[cls] - rng.below(3) as u32;
+            let count = counts[cls] as u64;
+            out.line("set");
+            let extra = 1 + rng.below(3);
+            for _ in 0..count + extra {
+                out.line(&format!("A {size}"));
+            }
+            out.line(&format!("S {cls}"));
+            if cls + 1 < sizes.len() {
+                out.line(&format!("S {}", cls + 1));
+            }
+            // release the overflow buffers and a few pooled ones, then allocate again
+            let mut freed = Vec::new();
+            for b in count..count + extra {
+                out.line(&format!("F {b}"));
+                freed.push(b);
+            }
+            for _ in 0..3 {
+                let b = rng.below(count);
+                if !freed.contains(&b) {
+                    out.line(&format!("F {b}"));
+                    freed.push(b);
+                }
+            }
+            out.line(&format!("S {cls}"));
+            if cls + 1 < sizes.len() {
+                out.line(&format!("S {}", cls + 1));
+            }
+            for _ in 0..5 {
+                out.line(&format!("A {size}"));
+            }
+            out.line(&format!("S {cls}"));
+        } else if h % 40 == 11 {
+            // ownership test around every block boundary and inside the free-list arrays
+            let sizes = hooks::slot_sizes();
+            let counts = hooks::slot_counts();
+            out.line("set");
+            for cls in 0..sizes.len() {
+                let total = i64::from(sizes[cls]) * i64::from(counts[cls]);
+                let fl = 4 * i64::from(counts[cls]);
+                for d in [-8, -1, 0, 1, total - 1, total, total + 1, total + 7, total + fl / 2, total + fl - 1, total + fl, total + fl + 8] {
+                    out.line(&format!("P {cls} {d}"));
+                }
+                out.line(&format!("P {cls} {}", rng.range(0, total + fl)));
+            }
         } else {
             out.line("set");
             let mut live: Vec<u64> = Vec::new();
@@ -384,6 +435,21 @@ fn step(w: &[&str], single: &mut Option<Single>, set: &mut Option<Set>) -> (Stri
                 return bad();
             }
             stats_str(s.set.stats(c))
+        }
+        ["P", c, d] => {
+            let Some(s) = set.as_ref() else { return bad() };
+            let (Ok(c), Ok(d)) = (c.parse::<u32>(), d.parse::<isize>()) else { return bad() };
+            if c >= hooks::CLASS_COUNT {
+                return bad();
+            }
+            let a = (s.set.class_base(c) as usize).wrapping_add_signed(d);
+            let ans = s.set.contains(a as *const u8);
+            let expect = (0..hooks::CLASS_COUNT).any(|k| {
+                let st = s.set.stats(k);
+                let base = s.set.class_base(k) as usize;
+                a >= base && a < base + st.slot_size as usize * st.slot_count as usize
+            });
+            (ans.to_string(), (ans != expect).then(|| format!("ownership test says {ans} for an address {} a pooled slot", if expect { "inside" } else { "outside" })))
         }
         ["K", n] => {
             let Ok(n) = n.parse::<u32>() else { return bad() };
